@@ -27,17 +27,24 @@ def check(ctx):
     ps.check_escape(roots[0], position=0)
     persist.check_memo_functions(ctx, [f for f in ctx.prog.all_functions()
                                        if not f.module.name.startswith('adsg_core.examples')])
+    from ..rules import shared
+    shared.check_constructor_store(ctx)
     invalidate.check_invalidation(ctx, GP)
     invalidate.check_cached_function_key(ctx)
     invalidate.check_unconditional_recompute(ctx, f'{GP}._update_comb_fixed_mask', '_comb_fixed_mask')
     ctx.floor('A1', 12, 'persistent stores on the decode slice (feasibility mask, graph caches, imputation '
                         'caches, exclusion sets)')
+    ctx.floor('A11s', 2, 'value containers of a graph never shared between instances')
     ctx.floor('A5inv', 2, 'writers of state read by cached functions')
 
 
 from ..selftest import V  # noqa: E402
 
 VARIANTS = [
+    V('value-dict-shared-between-instances', 'graph/adsg.py',
+      [("(_des_var_values or {}).copy()", "_des_var_values or {}")], key='A11s'),
+    V('metric-dict-shared-between-instances', 'graph/adsg.py',
+      [("(_metric_values or {}).copy()", "(_metric_values if _metric_values is not None else {})")], key='A11s'),
     V('mask-folded-in-place-get_graph', 'optimization/hierarchy/base.py',
       [("                include_mask = include_mask & mask\n", "                include_mask &= mask\n")],
       key='include_mask'),
